@@ -45,9 +45,14 @@ DlSegment(c) ==
 \*   [c, out, open] open = TRUE: reaction not asserted (malformed answers the statement does not rule on)
 Free(c) == [c |-> c, out |-> <<>>, open |-> TRUE]
 Det(r) == [c |-> r.c, out |-> r.out, open |-> FALSE]
+\* frames an expedited transfer ignores: command bits 0, 1 and 6 all clear (incl. an abort frame for another object, e.g. the late
+\* abort of an earlier transfer): nothing happens, the transfer goes on waiting for its response or its timeout
+Ignored(c, cmd) == c.kind \in {"up", "down"} /\ cmd % 4 = 0 /\ (cmd \div 64) % 2 = 0
 Resp(c, f) ==
   LET cmd == f[1] IN
-  IF cmd = 128 THEN (IF SubSeq(f, 2, 4) = Mx THEN Det(Fin(c, SubSeq(f, 5, 8))) ELSE Free(c))
+  IF cmd = 128 /\ SubSeq(f, 2, 4) = Mx THEN Det(Fin(c, SubSeq(f, 5, 8)))
+  ELSE IF Ignored(c, cmd) THEN Det(R(c, <<>>))
+  ELSE IF cmd = 128 THEN Free(c)
   ELSE CASE c.kind = "up" ->
               IF cmd >= 67 /\ cmd <= 79 /\ (cmd - 67) % 4 = 0
               THEN LET w == 4 - ((cmd - 67) \div 4) IN
